@@ -53,7 +53,98 @@ let parse_q s = if s = "NaN" then None else Some (BQ.of_string s)
 let degenerate = ref 0
 let calls = ref 0
 
-let compare_call (b : bus) (model : bl_result) obs : string option =
+(* ---------- bit-exact comparison with the extracted Flocq binary64 model (coq/extracted/c17_float.ml,
+   from coq/C17/FloatExec.v: rate_x, total_of_rates, load_of_total, pct_f, bits64) ---------- *)
+module F = C17_float
+let rec fpos_of_z (n : BZ.t) : F.positive =
+  if BZ.equal n BZ.one then F.XH
+  else if BZ.testbit n 0 then F.XI (fpos_of_z (BZ.shift_right n 1))
+  else F.XO (fpos_of_z (BZ.shift_right n 1))
+let fz_of_z (n : BZ.t) : F.z =
+  if BZ.sign n = 0 then F.Z0 else if BZ.sign n > 0 then F.Zpos (fpos_of_z n) else F.Zneg (fpos_of_z (BZ.neg n))
+let rec z_of_fpos = function
+  | F.XH -> BZ.one
+  | F.XO p -> BZ.shift_left (z_of_fpos p) 1
+  | F.XI p -> BZ.succ (BZ.shift_left (z_of_fpos p) 1)
+let z_of_fz = function F.Z0 -> BZ.zero | F.Zpos p -> z_of_fpos p | F.Zneg p -> BZ.neg (z_of_fpos p)
+let fconv (x : z) : F.z = fz_of_z (z_of_coqz x)
+
+(* exact value of the IEEE-754 binary64 with the given bit pattern; None for NaN / infinities
+   (the harness writes those as "NaN"); -0 and +0 both give 0, as big.Rat.SetFloat64 does *)
+let value_of_bits (b : BZ.t) : BQ.t option =
+  let sign = BZ.testbit b 63 in
+  let e = BZ.to_int (BZ.logand (BZ.shift_right b 52) (BZ.of_int 0x7ff)) in
+  let m = BZ.logand b (BZ.pred (BZ.shift_left BZ.one 52)) in
+  if e = 0x7ff then None
+  else begin
+    let (mant, ex) = if e = 0 then (m, -1074) else (BZ.add m (BZ.shift_left BZ.one 52), e - 1075) in
+    let v = if ex >= 0 then BQ.of_bigint (BZ.shift_left mant ex) else BQ.make mant (BZ.shift_left BZ.one (- ex)) in
+    Some (if sign then BQ.neg v else v)
+  end
+let fbits x = z_of_fz (F.bits64 x)
+let fval x = value_of_bits (fbits x)
+let opt_eq (a : BQ.t option) (b : BQ.t option) = match a, b with
+  | None, None -> true | Some x, Some y -> BQ.equal x y | _ -> false
+let show = function None -> "NaN/Inf" | Some x -> BQ.to_string x
+
+let rec perms = function
+  | [] -> [[]]
+  | l -> List.concat (List.mapi (fun i x ->
+      let rest = List.filteri (fun j _ -> j <> i) l in
+      List.map (fun p -> x :: p) (perms rest)) l)
+
+let float_rate_calls = ref 0      (* calls whose every BitsPerSec was compared bit-exactly *)
+let float_rate_values = ref 0     (* single BitsPerSec values compared *)
+let float_load_calls = ref 0      (* calls (<= 6 messages) whose load and shares were compared bit-exactly over all visiting orders *)
+let float_load_large = ref 0      (* calls with more than 6 messages: rates only *)
+let float_orders = ref 0          (* visiting orders evaluated *)
+let float_multi_total = ref 0     (* calls where different visiting orders give different float totals *)
+let float_skipped = ref 0         (* baud = 0: Go returns early, the float model would divide by 0 *)
+let float_bad : (string * string * string) list ref = ref []   (* kind, case, why *)
+let cur_case = ref ""
+let max_perm_msgs = 6
+
+let float_check (b : bus) (def : z) (lq : BQ.t option) (impl : (string * BQ.t option * BQ.t option) list) : unit =
+  if z_of_coqz b.b_baud = BZ.zero then incr float_skipped
+  else begin
+    let typ = fconv b.b_typ and baud = fconv b.b_baud and d = fconv def in
+    let msgs = List.map (fun m ->
+        (BZ.to_string (z_of_coqz m.m_key), F.rate_x typ d (F.plain (fconv m.m_key) (fconv m.m_size) (fconv m.m_cycle))))
+        (bus_msgs b) in
+    let report kind why = float_bad := (kind, !cur_case, why) :: !float_bad in
+    (* (a) every BitsPerSec, order-free *)
+    let bad = List.find_opt (fun (k, bp, _) -> match List.assoc_opt k msgs with
+        | None -> true
+        | Some r -> incr float_rate_values; not (opt_eq bp (fval r))) impl in
+    (match bad with
+     | Some (k, bp, _) ->
+       report "rate" (Printf.sprintf "key %s: BitsPerSec %s, Flocq binary64 model %s" k (show bp)
+                        (match List.assoc_opt k msgs with Some r -> show (fval r) | None -> "(no such message)"))
+     | None ->
+       incr float_rate_calls;
+       (* (b) load and shares: some visiting order must reproduce all of them *)
+       if List.length msgs > max_perm_msgs then incr float_load_large
+       else begin
+         let orders = perms (List.map snd msgs) in
+         float_orders := !float_orders + List.length orders;
+         let totals = List.fold_left (fun acc o ->
+             let t = F.total_of_rates o in
+             let bt = fbits t in
+             if List.exists (fun (bt', _) -> BZ.equal bt bt') acc then acc else (bt, t) :: acc) [] orders in
+         if List.length totals > 1 then incr float_multi_total;
+         let fits (_, t) =
+           opt_eq lq (fval (F.load_of_total t baud))
+           && List.for_all (fun (k, _, pc) -> opt_eq pc (fval (F.pct_f (List.assoc k msgs) t))) impl in
+         if List.exists fits totals then incr float_load_calls
+         else begin
+           let (_, t0) = List.hd (List.rev totals) in
+           report "load" (Printf.sprintf "load %s and the shares are reproduced by none of the %d visiting orders (%d distinct float totals); creation order gives load %s"
+                            (show lq) (List.length orders) (List.length totals) (show (fval (F.load_of_total t0 baud))))
+         end
+       end)
+  end
+
+let compare_call (b : bus) (def : z) (model : bl_result) obs : string option =
   incr calls;
   let n = List.length (bus_msgs b) in
   match model, obs with
@@ -107,6 +198,7 @@ let compare_call (b : bus) (model : bl_result) obs : string option =
                     | _ -> problem := Some (Printf.sprintf "position %d: rate %s, model (sorted by non-increasing rate) has %s" i
                                               (match bp with Some x -> BQ.to_string x | None -> "NaN") (BQ.to_string mb)))
                 (List.combine impl model);
+            if !problem = None then float_check b def (parse_q l) impl;
             !problem
           end)
      | _ -> Some ("model accepts, implementation says " ^ obs))
@@ -121,6 +213,7 @@ let () =
         raise End_of_file
       end;
       incr n;
+      cur_case := (match String.rindex_opt line ';' with Some i -> String.sub line 0 i | None -> line);
       let res =
         match String.split_on_char ';' line with
         | ["L"; baud; defs; builder; ifaces; obs] ->
@@ -128,14 +221,14 @@ let () =
              let typ = (match String.split_on_char ',' builder with _ :: t :: _ -> cz t | _ -> Z0) in
              let b = { b_typ = typ; b_baud = cz baud; b_ifaces = parse_ifaces ifaces } in
              let ds = List.map cz (String.split_on_char ',' defs) in
-             let models = session b ds in
+             let models = List.combine ds (session b ds) in
              let os = String.split_on_char '~' obs in
              if List.length os <> List.length models then Some "number of recorded calls differs from the number of defaults"
              else
                List.fold_left (fun acc (i, (m, o)) ->
                    match acc with
                    | Some _ -> acc
-                   | None -> (match compare_call b m o with
+                   | None -> (match compare_call b (fst m) (snd m) o with
                        | None -> None
                        | Some why -> Some (Printf.sprintf "call %d: %s" i why)))
                  None (List.mapi (fun i x -> (i, x)) (List.combine models os))
@@ -154,6 +247,13 @@ let () =
     Printf.printf "NO-VALID-END-MARKER (END says %d, %d lines read): the case file is truncated or not a C17 case file\n" !end_seen !n;
     exit 3
   end;
+  List.iteri (fun i (kind, case, why) ->
+      if i < 10 then Printf.printf "FLOATMISMATCH %s\n  fcase =%s\n  fwhy  =%s\n" kind case why) (List.rev !float_bad);
+  Printf.printf "FLOAT-MISMATCHES rate %d load %d\n"
+    (List.length (List.filter (fun (k, _, _) -> k = "rate") !float_bad))
+    (List.length (List.filter (fun (k, _, _) -> k = "load") !float_bad));
+  Printf.printf "FLOAT-COMPARED rate_calls %d rate_values %d load_calls %d load_large_rates_only %d orders %d order_dependent_totals %d skipped_zero_baud %d\n"
+    !float_rate_calls !float_rate_values !float_load_calls !float_load_large !float_orders !float_multi_total !float_skipped;
   Printf.printf "CALLS-COMPARED %d\n" !calls;
   Printf.printf "DEGENERATE-CALLS-NOT-COMPARED %d\n" !degenerate;
   Printf.printf "CASES %d MISMATCHES %d\n" !n !bad
